@@ -968,4 +968,159 @@ Proof.
 Qed.
 
 End Bounds.
+
+(* ================================================================== the configuration's bounds *)
+Definition cC (c : vconfig) : Z := ceiling_of (ss_config_of c).
+Definition cF (c : vconfig) : Z := floor_of (ss_config_of c).
+
+Lemma cF_pos : forall c, 1 <= cF c.
+Proof. intro c. unfold cF, floor_of, ceiling_of, default_min_mtu, ip_header, IPV4_HEADER, IPV6_HEADER, UDP_HEADER, UTP_HEADER.
+  destruct (cfg_ipv4 (ss_config_of c)); lia. Qed.
+
+Lemma cC_nonneg : forall c, 0 <= cC c.
+Proof. intro c. unfold cC, ceiling_of. lia. Qed.
+
+Lemma cF_le_cC : forall c, cF c <= cC c.
+Proof. intro c. unfold cF, cC, floor_of. lia. Qed.
+
+(* the invariant of every reachable state *)
+Definition c14_inv (c : vconfig) (s : vsock) : Prop := J0 (cC c) (cF c) s.
+
+Lemma c14_inv_vsock_new : forall mk c s, vsock_new cci mk c = Some s -> c14_inv c s.
+Proof.
+  intros mk c s H. unfold vsock_new in H.
+  destruct (match (if vc_incoming c then None else _) with Some r => _ | None => _ end); [|discriminate].
+  inversion H; subst. unfold c14_inv, J0, sb. cbn [v_ss v_segs segments_new ss_segs ss_offset].
+  destruct (new_shape (ss_config_of c)) as (E1 & E2 & _). unfold ss_config_of in E1, E2.
+  rewrite E1, E2. fold (ss_config_of c). fold (cF c). fold (cC c). pose proof (cF_le_cC c).
+  split; [lia|]. split; [constructor|]. split; exact I.
+Qed.
+
+Lemma vstep_nonpoll_c14 : forall (s : vsock) o,
+  match o with VoPoll _ => True | _ =>
+    v_ss (vstep_state cci s o) = v_ss s /\ v_segs (vstep_state cci s o) = v_segs s
+  end.
+Proof.
+  intros s o. unfold vstep_state. destruct o.
+  - cbn [vstep fst]; split; exact eq_refl.
+  - cbn [vstep fst]; split; exact eq_refl.
+  - exact I.
+  - cbn [vstep]. destruct (v_inbox_closed s); cbn [fst]; split; exact eq_refl.
+  - cbn [vstep fst]; split; exact eq_refl.
+  - cbn [vstep]. destruct (writer_dropped _); [|destruct (poll_write _ _) as [[tx1 r] w]];
+      cbn [fst]; split; exact eq_refl.
+  - cbn [vstep]. destruct (writer_dropped _); [|destruct (poll_flush _) as [[tx1 r] w]];
+      cbn [fst]; split; exact eq_refl.
+  - cbn [vstep]. destruct (writer_dropped _); [|destruct (poll_shutdown _) as [[tx1 r] w]];
+      cbn [fst]; split; exact eq_refl.
+  - cbn [vstep]. destruct (reader_dropped _); [|destruct (rx_read _ _) as [[rx1 r] w]];
+      cbn [fst]; split; exact eq_refl.
+  - cbn [vstep]. destruct (reader_dropped _); [|destruct (rx_drop_reader _) as [rx1 w]];
+      cbn [fst]; split; exact eq_refl.
+  - cbn [vstep]. destruct (drop_writer _) as [tx1 w]; cbn [fst]; split; exact eq_refl.
+Qed.
+
+Lemma J_poll_init : forall c (s : vsock) sc,
+  c14_inv c s -> J (cC c) (cF c) (poll_init (VSockRec.set_sends s sc)).
+Proof. intros c s sc H. split; [exact H|]. constructor. Qed.
+
+Theorem c14_inv_vstep : forall c (s : vsock) o, c14_inv c s -> c14_inv c (vstep_state cci s o).
+Proof.
+  intros c s o H. pose proof (vstep_nonpoll_c14 s o) as K.
+  destruct o; try (destruct K as [K1 K2]; unfold c14_inv, J0 in *; rewrite K1, K2; exact H).
+  destruct (poll cci (VSockRec.set_sends s script)) as [s' r] eqn:E.
+  destruct (vstep_poll cci s script s' r E) as [V1 _]. rewrite V1.
+  apply (poll_J (cC c) (cF c) (cF_pos c) (cC_nonneg c) _ _ _ E). apply J_poll_init. exact H.
+Qed.
+
+(* only a poll has a poll result *)
+Lemma nonpoll_result : forall (s : vsock) o,
+  match o with VoPoll _ => True | _ =>
+    forall r p w a, fs_result (fstep_of cci s o) <> FrPoll r p w a end.
+Proof.
+  intros s o. destruct o; try exact I; intros r0 p0 w0 a0; unfold fstep_of; cbn [vstep];
+    repeat break_match; cbn [fs_result fresult_of]; try discriminate.
+  destruct r1; discriminate.
+Qed.
+
+(* ================================================================== c14_datagram_ok *)
+Theorem c14_datagram_ok_step : forall c (s : vsock) o,
+  c14_inv c s -> c14_datagram_ok c (fstep_of cci s o) = true.
+Proof.
+  intros c s o H. pose proof (nonpoll_result s o) as N.
+  destruct o; try (unfold c14_datagram_ok;
+                   match goal with |- match ?x with _ => _ end = true => destruct x eqn:E end;
+                   try reflexivity; exfalso; first [exact (N _ _ _ _ E) | exact (N _ _ _ _ eq_refl)]).
+  destruct (poll cci (VSockRec.set_sends s script)) as [s' r] eqn:E.
+  rewrite (fstep_of_poll cci s script s' r E). unfold c14_datagram_ok. cbn [fs_result].
+  pose proof (poll_J (cC c) (cF c) (cF_pos c) (cC_nonneg c) _ _ _ E (J_poll_init c s script H)) as [_ HO].
+  apply forallb_forall. intros p Hp. apply in_map_iff in Hp. destruct Hp as (q & <- & Hq).
+  apply in_rev in Hq. unfold outC in HO. rewrite Forall_forall in HO. specialize (HO q Hq).
+  apply Z.leb_le. exact HO.
+Qed.
+
+Theorem c14_datagram_ok_trace : forall mk c (s0 : vsock) ops,
+  vsock_new cci mk c = Some s0 -> forallb (c14_datagram_ok c) (ftrace cci s0 ops) = true.
+Proof.
+  intros mk c s0 ops H0. apply (ftrace_forallb cci (c14_inv c)).
+  - intros s o Hi. apply c14_datagram_ok_step; exact Hi.
+  - intros s o Hi. apply c14_inv_vstep; exact Hi.
+  - eapply c14_inv_vsock_new; exact H0.
+Qed.
+
+(* ================================================================== c14_segments_ok *)
+Lemma tok_table_ok : forall l, tok l -> c14_table_ok (map fseg_of l) = true.
+Proof.
+  induction l as [|g r IH]; intro H; [reflexivity|]. destruct H as [H1 H2].
+  cbn [map c14_table_ok]. rewrite (IH H2), andb_true_r.
+  unfold fseg_of at 1 2. cbn [fg_delivered fg_probe].
+  destruct (sg_delivered g); [reflexivity|]. destruct (sg_probe g); [|reflexivity].
+  cbn [negb andb]. rewrite (H1 eq_refl eq_refl). reflexivity.
+Qed.
+
+Lemma new_segments_ok : forall e m l, NP e m l -> PP e m l ->
+  forallb (c14_new_segment_ok e m) (map fseg_of l) = true.
+Proof.
+  intros e m. induction l as [|g r IH]; intros Hn Hp; [reflexivity|].
+  inversion Hn as [|? ? Hn1 Hn2]; inversion Hp as [|? ? Hp1 Hp2]; subst.
+  cbn [map forallb]. rewrite (IH Hn2 Hp2), andb_true_r.
+  unfold c14_new_segment_ok, fseg_of. cbn [fg_abs fg_probe fg_size].
+  destruct (Z.leb_spec e (sg_abs g)) as [Hle|Hgt]; [|reflexivity].
+  destruct (sg_probe g) eqn:Pb.
+  - specialize (Hp1 Hle eq_refl). destruct (Z.ltb_spec m (sg_size g)); [reflexivity|lia].
+  - specialize (Hn1 Hle eq_refl). destruct (Z.ltb_spec m (sg_size g)); [lia|reflexivity].
+Qed.
+
+Theorem c14_segments_ok_step : forall c (s : vsock) o,
+  c14_inv c s -> c14_segments_ok c (fstep_of cci s o) = true.
+Proof.
+  intros c s o H. pose proof (nonpoll_result s o) as N.
+  destruct o; try (unfold c14_segments_ok;
+                   match goal with |- match ?x with _ => _ end = true => destruct x eqn:E end;
+                   try reflexivity; exfalso; first [exact (N _ _ _ _ E) | exact (N _ _ _ _ eq_refl)]).
+  destruct (poll cci (VSockRec.set_sends s script)) as [s' r] eqn:E.
+  rewrite (fstep_of_poll cci s script s' r E). unfold c14_segments_ok. cbn [fs_result fs_post fs_pre].
+  destruct r; try reflexivity.
+  assert (HS : St (cC c) (cF c) (ss_offset (v_segs s)) (poll_init (VSockRec.set_sends s script))).
+  { split; [exact H|]. exact (J0_X_start (cC c) (cF c) s H). }
+  pose proof (poll_St (cC c) (cF c) (cF_pos c) (cC_nonneg c) _ _ _ HS E) as ((S1 & S2 & S3 & S4) & S5 & S6 & _).
+  cbn [fp_of_vsock f_segs f_seg_offset f_mss f_max_ss]. unfold mss.
+  destruct S1 as [[B1 B2] B3]. fold (cC c) (cF c).
+  repeat (apply andb_true_intro; split).
+  - apply tok_table_ok; exact S3.
+  - apply new_segments_ok; assumption.
+  - apply Z.leb_le; exact B1.
+  - apply Z.leb_le; exact B2.
+  - apply Z.leb_le; exact B3.
+Qed.
+
+Theorem c14_segments_ok_trace : forall mk c (s0 : vsock) ops,
+  vsock_new cci mk c = Some s0 -> forallb (c14_segments_ok c) (ftrace cci s0 ops) = true.
+Proof.
+  intros mk c s0 ops H0. apply (ftrace_forallb cci (c14_inv c)).
+  - intros s o Hi. apply c14_segments_ok_step; exact Hi.
+  - intros s o Hi. apply c14_inv_vstep; exact Hi.
+  - eapply c14_inv_vsock_new; exact H0.
+Qed.
+
 End WithCC.
